@@ -1,6 +1,6 @@
 (* ParserProofs.v - theorems about the parser model (model/Parser.v). *)
 From Coq Require Import Lia.
-From Plush Require Import model.Bytes model.Lexer model.Ast model.Parser gen.Tables.
+From Plush Require Import model.Bytes model.Lexer model.Ast model.Parser gen.PrecTables.
 Local Open Scope nat_scope.
 
 (* ---------- C06: the precedence table regenerated from parser/precedences.go ---------- *)
